@@ -226,7 +226,8 @@ def stepRest (s : KSrc) (t : Nat) (c0 c : Cfg) : Cfg × List Ev :=
       else done c [ev, .ret .fin]
     | .chunk n kk =>
       let ev := Ev.faa (.ctr k) .acqrel cv n
-      let (b, e) := pullRange len cv n
+      let b := (pullRange len cv n).1
+      let e := (pullRange len cv n).2
       if b = e then done c [ev, .ret .fin]
       else
         let a := e - b
@@ -242,7 +243,8 @@ def stepRest (s : KSrc) (t : Nat) (c0 c : Cfg) : Cfg × List Ev :=
         let cv := c0.ctr bk
         let ev := Ev.faa (.ctr bk) .acqrel cv n
         if cv < len then
-          let (b, e) := pullRange len cv n
+          let b := (pullRange len cv n).1
+          let e := (pullRange len cv n).2
           let a := e - b
           let j := takeCount kk a
           let taken := rangeList b (b + j)
@@ -271,7 +273,8 @@ def stepRest (s : KSrc) (t : Nat) (c0 c : Cfg) : Cfg × List Ev :=
     | some (n, withIdx, panicAt, isFold) =>
       let ev := Ev.faa (.ctr k) .acqrel cv n
       if cv < len then
-        let (b, e) := if n = 1 then (cv, cv + 1) else pullRange len cv n
+        let b := if n = 1 then cv else (pullRange len cv n).1
+        let e := if n = 1 then cv + 1 else (pullRange len cv n).2
         let ps := rangeList b e
         let (evs, visits', sum', panicked) := visitAll s withIdx panicAt ps visits sum []
         match panicked with
